@@ -378,6 +378,48 @@ pub fn check_shared_parts(s: &str) -> Result<bool, String> {
         if format!("$share/{}/{}", name, filt) != s || name.is_empty() || name.contains('/') {
             return Err(format!("MQV-INTERNAL bad split of {:?}", s));
         }
+        // decoded as one entry of a list whose neighbours are shared filters with a share name that is a proper prefix /
+        // an extension of this one, the same name, and a plain filter: every decoded entry reports its own split
+        // (whatever a decoder may reuse from the entry before)
+        if s.len() <= 2_000 {
+            let mut shorter: String = name.chars().take(name.chars().count().saturating_sub(1)).collect();
+            if shorter.is_empty() {
+                shorter = "q".to_string();
+            }
+            let texts: Vec<String> = vec![format!("$share/{}/{}", shorter, filt), s.to_string(), format!("$share/{}x/{}", name, filt), s.to_string(), "plain/+".to_string(), s.to_string(), format!("$share/{}/other", name), format!("$share/{}", &s["$share/".len()..])];
+            for typ in [model::T_SUBSCRIBE, model::T_UNSUBSCRIBE] {
+                for fam in [Fam::V5, Fam::V3] {
+                    let refs: Vec<&[u8]> = texts.iter().map(|x| x.as_bytes()).collect();
+                    let frame = sub_frame_multi(fam, typ, &refs);
+                    let got: Option<Vec<TopicFilter>> = if fam == Fam::V5 {
+                        match mqtt_proto::v5::Packet::decode(&frame) {
+                            Ok(Some(mqtt_proto::v5::Packet::Subscribe(x))) => Some(x.topics.into_iter().map(|e| e.0).collect()),
+                            Ok(Some(mqtt_proto::v5::Packet::Unsubscribe(x))) => Some(x.topics),
+                            _ => None,
+                        }
+                    } else {
+                        match mqtt_proto::v3::Packet::decode(&frame) {
+                            Ok(Some(mqtt_proto::v3::Packet::Subscribe(x))) => Some(x.topics.into_iter().map(|e| e.0).collect()),
+                            Ok(Some(mqtt_proto::v3::Packet::Unsubscribe(x))) => Some(x.topics),
+                            _ => None,
+                        }
+                    };
+                    let got = got.ok_or_else(|| format!("{} {} carrying the valid filters {:?} was not decoded", fam.name(), model::type_name(typ), texts))?;
+                    if got.len() != texts.len() {
+                        return Err(format!("{} {} carrying {} filters decoded to {} entries", fam.name(), model::type_name(typ), texts.len(), got.len()));
+                    }
+                    for (g, want_text) in got.iter().zip(&texts) {
+                        let want = if want_text.starts_with("$share/") { specpred::shared_split(want_text) } else { None };
+                        if &**g != want_text.as_str() || g.shared_info() != want || g.is_shared() != want.is_some() || g.shared_group_name() != want.map(|x| x.0) || g.shared_filter() != want.map(|x| x.1) {
+                            return Err(format!(
+                                "filter {:?} decoded as one entry of a {} {} that lists {:?}: accessors give {:?} (is_shared {}); the text splits as {:?}",
+                                want_text, fam.name(), model::type_name(typ), texts, g.shared_info(), g.is_shared(), want
+                            ));
+                        }
+                    }
+                }
+            }
+        }
         Ok(true)
     } else {
         if f.is_shared() || f.shared_group_name().is_some() || f.shared_filter().is_some() || f.shared_info().is_some() {
